@@ -286,6 +286,12 @@ NewerAboveOlder == NewerAboveOlderOf(lv)
 CompactionPreservesContents ==
   [][(lv' # lv /\ nflush' = nflush) => VisibleMap(lv') = VisibleMap(lv)]_vars
 
+\* the level list is a value: only a flush and a change-set swap replace it.  Picking and building leave it as it is
+\* (readers keep using it), and a list that a swap replaced stays what it was for the readers that captured it.  The
+\* code is held to both by the "Build" and "Old" lines of CompactionTrace.tla.
+OnlyFlushAndSwapChangeLayout ==
+  [][lv' # lv => (nflush' = nflush + 1 \/ (comp.on /\ comp.built /\ ~comp'.on))]_vars
+
 TypeOK == /\ minorLevel \in 0..Base /\ seq \in Nat /\ comp.on \in BOOLEAN
           /\ \A l \in Levels : \A i \in 1..Len(lv[l]) : \A j \in 1..Len(lv[l][i].e) : lv[l][i].e[j].k \in Keys
 
